@@ -409,12 +409,14 @@ def unmarshal_payload_contracts_assumed():
     out.append(Contract(FRM + '_unmarshal_method_frame', [('frame_data', T.bytes)], cases=[
         Case('a-method-or-UnmarshalingException', post=lambda c, r: isinstance(r, SObj) and issubclass(r.cls, base.Frame),
              havoc=lambda c: SObj(base.Frame, {}, provenance='fresh'), may_raise=(UE,))], name=FRM + '_unmarshal_method_frame(t)',
-        trusted=True, view='t'))
+        trusted=True, view='t',
+        established_by=lambda reg: [c.name for c in reg.all if c.name.startswith(FRM + '_unmarshal_method_frame[')]))
     out.append(Contract(FRM + '_unmarshal_header_frame', [('frame_data', T.bytes)], cases=[
         Case('a-content-header-or-UnmarshalingException',
              post=lambda c, r: isinstance(r, SObj) and issubclass(r.cls, header.ContentHeader),
              havoc=lambda c: SObj(header.ContentHeader, {}, provenance='fresh'), may_raise=(UE,))],
-        name=FRM + '_unmarshal_header_frame(t)', trusted=True, view='t'))
+        name=FRM + '_unmarshal_header_frame(t)', trusted=True, view='t',
+        established_by=lambda reg: [FRM + '_unmarshal_header_frame']))
     return out
 
 
